@@ -117,7 +117,7 @@ func basePolicy(r *rand.Rand, profile string) *wPolicy {
 		t.Rules = append(t.Rules, hRule{Name: "all-heads", Patterns: []string{"git:refs/heads/*"}, Pids: pick(1), Thr: 1})
 	}
 	p.Files = []*wFile{t}
-	if r.Intn(4) == 0 { // one delegated file under protect-main
+	if r.Intn(4) == 0 || (profile == "C02" && r.Intn(2) == 0) { // one delegated file under protect-main
 		d := &wFile{Version: 1}
 		d.Name = "protect-main"
 		d.Defs = map[int][]int{}
@@ -256,7 +256,7 @@ func mutatePolicy(r *rand.Rand, cur *wPolicy, allowBad bool) (*wPolicy, string) 
 		}
 	case "BAD-root-lifted-sigs": // a root naming an intruder's key, carrying the previous root's signature block
 		p.RootVersion++
-		p.RootKeys, p.RootThr = []int{2}, 1
+		p.RootKeys, p.RootThr, p.RootSigners = []int{2}, 1, []int{2} // later states are signed by the intruder
 		p.RootSigsLiftedFrom = cur
 	case "BAD-dangling":
 		d := &wFile{Version: 1, Signers: []int{devKey(101)}}
@@ -370,7 +370,8 @@ func genIncidentWorld(r *rand.Rand) *wWorld {
 				bad = append(bad, len(g.w.Events)-1)
 			}
 			for i, pos := range bad {
-				if i == len(bad)-1 || r.Intn(4) != 0 { // sometimes an invalid entry stays unrevoked
+				_ = i
+				if r.Intn(4) != 0 { // sometimes an invalid entry stays unrevoked
 					annotate(pos, r.Intn(3) == 0, r.Intn(2) == 0)
 				}
 			}
@@ -499,7 +500,7 @@ func genWorld(r *rand.Rand, profile string) *wWorld {
 			}
 			a := wAuthz{Ref: ref, From: g.tips[ref], To: g.treeOf(c), PathRef: ref, PathFrom: g.tips[ref], PathTo: g.treeOf(c), Signers: signers}
 			if g.profile == "C09" || r.Intn(6) == 0 {
-				switch r.Intn(6) {
+				switch r.Intn(7) {
 				case 0: // statement for another change stored at this change's path
 					other := g.newCommit(parent, 0)
 					a.To = g.treeOf(other)
@@ -509,6 +510,8 @@ func genWorld(r *rand.Rand, profile string) *wWorld {
 					a.From = 1
 				case 3: // stored elsewhere: not found for this change
 					a.PathRef = refFeat
+				case 4: // a statement for creating the branch (from nothing), stored at this change's path
+					a.From = 0
 				}
 			}
 			// keep earlier authorizations of the current attestation state
@@ -527,9 +530,13 @@ func genWorld(r *rand.Rand, profile string) *wWorld {
 			g.push(ref, c, signer, true) // validity depends on the approvals; treated as candidate for skipping
 		case x < 69: // policy update
 			np, kind := mutatePolicy(r, g.pol, g.profile == "C02" || r.Intn(3) == 0)
-			_ = kind
 			g.pol = np
 			g.addEvent(wEvent{Kind: "policy", Pol: np, Signer: 1})
+			if strings.HasPrefix(kind, "BAD") && r.Intn(2) == 0 { // a forbidden state is usually followed by further, well-formed ones
+				np2, _ := mutatePolicy(r, g.pol, false)
+				g.pol = np2
+				g.addEvent(wEvent{Kind: "policy", Pol: np2, Signer: 1})
+			}
 		case x < 82: // annotation
 			if len(g.w.Events) < 2 {
 				continue
